@@ -301,6 +301,262 @@ theorem c17_dialled_unfiltered (s : State) (p : Ident) (m : Nat)
     (step (step s (.dial p)).1 (.msg p.key m)).2 = .dispatched p m := by
   simp [step, List.find?_append, hnew]
 
+/-! ### the statement over traces
+
+The specification of the property, written over the history itself: *the sets are the lists given by the
+latest `SetValidPeers` call for each identifier*.  `c17_trace` says what the router answers at every
+position of every history in these terms only — no table, no reachable state. -/
+
+/-- the `SetValidPeers` calls of a history, in order -/
+def setsOf : List Op → List (SetId × List Ident)
+  | [] => []
+  | .setPeers id ps :: l => (id, ps) :: setsOf l
+  | _ :: l => setsOf l
+
+/-- the specification's verdict on a key after the calls `l`: no call was made yet, or the latest list
+given for some identifier holds an identity with that key -/
+def SpecMember (l : List (SetId × List Ident)) (k : Key) : Prop :=
+  l = [] ∨ ∃ id ps, lastSet l id = some ps ∧ ∃ q ∈ ps, q.key = k
+
+theorem setsOf_append (a b : List Op) : setsOf (a ++ b) = setsOf a ++ setsOf b := by
+  induction a with
+  | nil => rfl
+  | cons op l ih => cases op <;> simp [setsOf, ih]
+
+theorem step_vp (s : State) (op : Op) :
+    (step s op).1.vp = (match op with | .setPeers id ps => s.vp.set id ps | _ => s.vp) := by
+  cases op <;> simp only [step] <;> (try split) <;> rfl
+
+theorem run_vp (s : State) (ops : List Op) : (run s ops).1.vp = applySets s.vp (setsOf ops) := by
+  induction ops generalizing s with
+  | nil => rfl
+  | cons op l ih =>
+    simp only [run]
+    rw [ih, step_vp]
+    cases op <;> simp [setsOf, applySets]
+
+theorem run_append (s : State) (a b : List Op) :
+    run s (a ++ b) = ((run (run s a).1 b).1, (run s a).2 ++ (run (run s a).1 b).2) := by
+  induction a generalizing s with
+  | nil => simp [run]
+  | cons op l ih => simp only [List.cons_append, run, ih]
+
+theorem run_obs_length (s : State) (ops : List Op) : (run s ops).2.length = ops.length := by
+  induction ops generalizing s with
+  | nil => rfl
+  | cons op l ih => simp [run, ih]
+
+/-- the observation at a position of a history is the step made there, from the state the prefix leads to -/
+theorem run_obs_at (s : State) (pre post : List Op) (op : Op) :
+    (run s (pre ++ op :: post)).2[pre.length]? = some (step (run s pre).1 op).2 := by
+  rw [run_append]
+  simp only
+  rw [List.getElem?_append_right (by rw [run_obs_length]; exact Nat.le_refl _)]
+  simp [run_obs_length, run]
+
+theorem applySets_some (m : List (SetId × List PeerId)) (l : List (SetId × List Ident)) :
+    ∃ m', applySets (some m) l = some m' := by
+  induction l generalizing m with
+  | nil => exact ⟨m, rfl⟩
+  | cons e l ih => exact ih _
+
+theorem applySets_wf (vp : VP) (l : List (SetId × List Ident)) (h : vp.WF) : (applySets vp l).WF := by
+  induction l generalizing vp with
+  | nil => exact h
+  | cons e l ih => exact ih _ (set_wf vp e.1 e.2 h)
+
+/-- **the filter after any calls is the specification**: the table built by the calls `l` answers yes for
+an identity iff no call was made or the latest list of some identifier holds its key -/
+theorem c17_valid_after_sets (l : List (SetId × List Ident)) (p : Ident) :
+    (applySets none l).isValid p = true ↔ SpecMember l p.key := by
+  rw [c17_valid_iff _ (applySets_wf none l trivial)]
+  unfold SpecValid SpecMember
+  constructor
+  · rintro (h | ⟨id, ps, hg, hin⟩)
+    · left
+      cases l with
+      | nil => rfl
+      | cons e l =>
+        obtain ⟨m', hm⟩ := applySets_some ((e.1, e.2.map Ident.getID) :: []) l
+        have : applySets none (e :: l) = some m' := hm
+        rw [this] at h; cases h
+    · rw [c17_get_last_set] at hg
+      cases hl : lastSet l id with
+      | some ps' =>
+        rw [hl] at hg
+        simp only [Option.some.injEq] at hg
+        subst hg
+        obtain ⟨q, hq, he⟩ := List.mem_map.mp hin
+        exact .inr ⟨id, ps', hl, q, hq, by simpa [Ident.getID, idOfKey] using he⟩
+      | none =>
+        rw [hl] at hg
+        simp only [VP.get] at hg
+        split at hg
+        · cases hg
+        · simp only [Option.getD_none, Option.some.injEq] at hg
+          subst hg; simp at hin
+  · rintro (h | ⟨id, ps, hl, q, hq, hk⟩)
+    · subst h; exact .inl rfl
+    · refine .inr ⟨id, ps.map Ident.getID, ?_, List.mem_map.mpr ⟨q, hq, by simp [Ident.getID, hk]⟩⟩
+      rw [c17_get_last_set, hl]
+
+/-- where a registered connection comes from, in terms of the history: the router dialled that peer, or
+the peer offered the connection at a position where the specification held its key valid; and the peer's
+connections were not dropped since -/
+def ConnFrom (ops : List Op) (c : Conn) : Prop :=
+  ∃ a b, ops = a ++ b ∧ (∀ op ∈ b.tail, op ≠ .drop c.peer.key) ∧
+    ((b.head? = some (.dial c.peer) ∧ c.origin = .dialled) ∨
+     (∃ m, b.head? = some (.offer c.peer m)) ∧ c.origin = .offered (applySets none (setsOf a)) ∧
+        SpecMember (setsOf a) c.peer.key)
+
+theorem ConnFrom.snoc {ops : List Op} {c : Conn} (h : ConnFrom ops c) (op : Op) (hop : op ≠ .drop c.peer.key) :
+    ConnFrom (ops ++ [op]) c := by
+  obtain ⟨a, b, he, hnd, hor⟩ := h
+  have hb : b ≠ [] := by
+    intro e; subst e
+    rcases hor with ⟨h1, _⟩ | ⟨⟨m, h1⟩, _⟩ <;> simp at h1
+  refine ⟨a, b ++ [op], by rw [he, List.append_assoc], ?_, ?_⟩
+  · intro x hx
+    rw [List.tail_append_of_ne_nil hb] at hx
+    rcases List.mem_append.mp hx with hx | hx
+    · exact hnd x hx
+    · simp at hx; subst hx; exact hop
+  · have hh : (b ++ [op]).head? = b.head? := by
+      cases b with
+      | nil => exact absurd rfl hb
+      | cons x l => rfl
+    rw [hh]; exact hor
+
+theorem run_snoc_state (s : State) (ops : List Op) (op : Op) :
+    (run s (ops ++ [op])).1 = (step (run s ops).1 op).1 := by
+  rw [run_append]; rfl
+
+/-- every registered connection of every reachable state is explained by the history -/
+theorem conns_from (ops : List Op) : ∀ c ∈ (run {} ops).1.conns, ConnFrom ops c := by
+  suffices h : ∀ (l pre : List Op), (∀ c ∈ (run {} pre).1.conns, ConnFrom pre c) →
+      ∀ c ∈ (run {} (pre ++ l)).1.conns, ConnFrom (pre ++ l) c from by
+    have := h ops [] (by intro c hc; simp [run] at hc)
+    simpa using this
+  intro l
+  induction l with
+  | nil => intro pre h; simpa using h
+  | cons op l ih =>
+    intro pre h
+    have hstep : ∀ c ∈ (run {} (pre ++ [op])).1.conns, ConnFrom (pre ++ [op]) c := by
+      intro c hc
+      rw [run_snoc_state] at hc
+      cases op with
+      | setPeers id ps => exact (h c hc).snoc _ (by simp)
+      | getPeers id => exact (h c hc).snoc _ (by simp)
+      | msg k m =>
+        have : (step (run {} pre).1 (.msg k m)).1 = (run {} pre).1 := by
+          simp only [step]; split <;> rfl
+        rw [this] at hc
+        exact (h c hc).snoc _ (by simp)
+      | offer p m =>
+        simp only [step] at hc
+        split at hc
+        · rename_i hv
+          rcases List.mem_append.mp hc with hc | hc
+          · exact (h c hc).snoc _ (by simp)
+          · simp only [List.mem_singleton] at hc
+            subst hc
+            have hvp : (run {} pre).1.vp = applySets none (setsOf pre) := run_vp {} pre
+            refine ⟨pre, [.offer p m], rfl, by simp, .inr ⟨⟨m, rfl⟩, by rw [hvp], ?_⟩⟩
+            rw [hvp] at hv
+            exact (c17_valid_after_sets _ p).mp hv
+        · exact (h c hc).snoc _ (by simp)
+      | dial p =>
+        simp only [step] at hc
+        rcases List.mem_append.mp hc with hc | hc
+        · exact (h c hc).snoc _ (by simp)
+        · simp only [List.mem_singleton] at hc
+          subst hc
+          exact ⟨pre, [.dial p], rfl, by simp, .inl ⟨rfl, rfl⟩⟩
+      | drop k =>
+        simp only [step] at hc
+        obtain ⟨hc1, hc2⟩ := List.mem_filter.mp hc
+        refine (h c hc1).snoc _ ?_
+        intro e
+        have : k = c.peer.key := by injection e
+        simp [this] at hc2
+    have := ih (pre ++ [op]) hstep
+    simpa using this
+
+/-- **the property over traces.**  Take any history and any position in it (`pre` = what came before).
+
+* A connection offered at that position is accepted and its message dispatched if no `SetValidPeers`
+  call came before or the latest list given for *some* identifier holds the peer's key; otherwise it is
+  refused.  Lists given earlier for the same identifier, and the `ID` field, play no part.
+* A read at that position returns nil if no call came before, else the ids of the keys of the latest list
+  given for that identifier (the empty list if none was).
+* A message dispatched at that position over an existing connection comes from a peer the router dialled
+  itself, or whose offer — at an earlier position — was accepted under the rule above, and whose
+  connections were not dropped in between. -/
+theorem c17_trace (pre post : List Op) :
+    (∀ p m, (SpecMember (setsOf pre) p.key →
+              (run {} (pre ++ .offer p m :: post)).2[pre.length]? = some (.dispatched p m)) ∧
+            (¬ SpecMember (setsOf pre) p.key →
+              (run {} (pre ++ .offer p m :: post)).2[pre.length]? = some .refused)) ∧
+    (∀ id, (run {} (pre ++ .getPeers id :: post)).2[pre.length]? =
+        some (.peers (if setsOf pre = [] then none
+                      else some (((lastSet (setsOf pre) id).getD []).map Ident.getID)))) ∧
+    (∀ k m q, (run {} (pre ++ .msg k m :: post)).2[pre.length]? = some (.dispatched q m) →
+        q.key = k ∧ ∃ a b, pre = a ++ b ∧ (∀ op ∈ b.tail, op ≠ .drop k) ∧
+          (b.head? = some (.dial q) ∨
+           (∃ m', b.head? = some (.offer q m')) ∧ SpecMember (setsOf a) k)) := by
+  have hvp : (run {} pre).1.vp = applySets none (setsOf pre) := run_vp {} pre
+  refine ⟨fun p m => ⟨fun h => ?_, fun h => ?_⟩, fun id => ?_, fun k m q h => ?_⟩
+  · rw [run_obs_at]
+    have := (c17_valid_after_sets (setsOf pre) p).mpr h
+    simp only [step, hvp, this, if_true]
+  · rw [run_obs_at]
+    have : ¬ (applySets none (setsOf pre)).isValid p = true := fun hv => h ((c17_valid_after_sets _ p).mp hv)
+    simp only [step, hvp, if_neg this]
+  · rw [run_obs_at]
+    simp only [step, hvp, c17_get_last_set]
+    cases hl : lastSet (setsOf pre) id with
+    | some ps =>
+      have : setsOf pre ≠ [] := by intro e; rw [e] at hl; simp [lastSet] at hl
+      simp [this]
+    | none =>
+      cases hs : setsOf pre with
+      | nil => simp [VP.get]
+      | cons e l => simp [VP.get]
+  · rw [run_obs_at] at h
+    simp only [step, Option.some.injEq] at h
+    split at h
+    · rename_i c hf
+      have hq : c.peer = q := by
+        simpa using congrArg (fun o => match o with | Obs.dispatched p _ => p | _ => q) h
+      have hmem := List.mem_of_find?_eq_some hf
+      have hk : c.peer.key = k := by simpa using List.find?_some hf
+      obtain ⟨a, b, he, hnd, hor⟩ := conns_from pre c hmem
+      refine ⟨by rw [← hq]; exact hk, a, b, he, by rw [← hk]; exact hnd, ?_⟩
+      rcases hor with ⟨h1, _⟩ | ⟨⟨m', h1⟩, _, h3⟩
+      · exact .inl (by rw [← hq]; exact h1)
+      · exact .inr ⟨⟨m', by rw [← hq]; exact h1⟩, by rw [← hk]; exact h3⟩
+    · cases h
+
+/-- `c17_trace` is not vacuous: in this history the offer at position 4 comes after two calls for the
+same identifier; the latest list holds key 2 and not key 1 -/
+example :
+    SpecMember (setsOf [.setPeers (newPeerSetID [1]) [Ident.honest 1], .offer (Ident.honest 1) 0, .setPeers (newPeerSetID [2]) [],
+                        .setPeers (newPeerSetID [1]) [⟨2, 0⟩]]) 2 ∧
+    ¬ SpecMember (setsOf [.setPeers (newPeerSetID [1]) [Ident.honest 1], .offer (Ident.honest 1) 0, .setPeers (newPeerSetID [2]) [],
+                        .setPeers (newPeerSetID [1]) [⟨2, 0⟩]]) 1 := by
+  constructor
+  · refine .inr ⟨(newPeerSetID [1]), [⟨2, 0⟩], ?_, ⟨2, 0⟩, by simp, rfl⟩
+    decide
+  · rintro (h | ⟨id, ps, hl, q, hq, hk⟩)
+    · simp [setsOf] at h
+    · simp only [setsOf, lastSet] at hl
+      by_cases h1 : (newPeerSetID [1]) = id
+      · simp [h1] at hl; subst hl; simp at hq; subst hq; simp at hk
+      · by_cases h2 : (newPeerSetID [2]) = id
+        · simp [h1, h2] at hl; subst hl; simp at hq
+        · simp [h1, h2] at hl
+
 /-! ### what the theorem does not say — recorded so nobody reads more into it -/
 
 def setA : SetId := newPeerSetID [1]
@@ -751,6 +1007,64 @@ theorem c17_shape_router_Router_launchHandleRoutine :
     Shapes.network_router_Router_launchHandleRoutine =
    ["r.Lock", "defer:r.Unlock", "if:r.isClosed", "return:xerrors.Errorf(\"\",ErrClosed)",
      "wg.Add", "go{", "r.handleConn", "}", "return:nil"] := rfl
+
+theorem c17_shape_router_validPeers_set_c17 :
+    Shapes.network_router_validPeers_set_c17 =
+   ["assign:newPeers:=make(peerSet)", "range:_,peer:=peers{",
+     "assign:newPeers[peer.GetID()]=?{}", "}", "lock.Lock", "defer:lock.Unlock",
+     "if:(vp.peers==nil)", "assign:vp.peers=make(conv)", "assign:vp.peers[peerSetID]=newPeers"] := rfl
+
+theorem c17_shape_router_validPeers_get_c17 :
+    Shapes.network_router_validPeers_get_c17 =
+   ["lock.Lock", "defer:lock.Unlock", "if:(vp.peers==nil)", "return:nil",
+     "assign:peerList:=conv{}", "range:peer,:=vp.peers[peerSetID]{",
+     "assign:peerList=append(peerList,peer)", "}", "return:peerList"] := rfl
+
+theorem c17_shape_router_validPeers_isValid_c17 :
+    Shapes.network_router_validPeers_isValid_c17 =
+   ["lock.Lock", "defer:lock.Unlock", "if:(vp.peers==nil)", "return:true", "peer.GetID",
+     "assign:peerID:=peer.GetID()", "range:_,peers:=vp.peers{", "assign:_,ok:=peers[peerID]",
+     "if:ok", "return:true", "}", "return:false"] := rfl
+
+theorem c17_shape_router_Router_Start_c17 :
+    Shapes.network_router_Router_Start_c17 =
+   ["if:!r.Quiet", "defer:verifC10Point", "r.receiveServerIdentity",
+     "assign:dst,err:=r.receiveServerIdentity(c)", "if:(err!=nil)",
+     "if:!strings.Contains(err.Error(),\"\")", "c.Close", "assign:err:=c.Close()",
+     "if:(err!=nil)", "return:", "if:!r.isPeerValid(dst)", "c.Close", "assign:err:=c.Close()",
+     "if:(err!=nil)", "return:", "verifC10Point", "r.registerConnection",
+     "assign:err:=r.registerConnection(dst,c)", "if:(err!=nil)", "c.Close",
+     "assign:err:=c.Close()", "if:(err!=nil)", "return:", "verifC10Point",
+     "r.launchHandleRoutine", "assign:err:=r.launchHandleRoutine(dst,c)", "if:(err!=nil)",
+     "return:", "host.Listen", "assign:err:=r.host.Listen(func)", "if:(err!=nil)"] := rfl
+
+theorem c17_shape_router_Router_registerConnection_c17 :
+    Shapes.network_router_Router_registerConnection_c17 =
+   ["r.Lock", "defer:r.Unlock", "if:r.isClosed", "return:xerrors.Errorf(\"\",ErrClosed)",
+     "remote.GetID", "assign:_,okc:=r.connections[remote.GetID()]", "if:okc", "remote.GetID",
+     "assign:r.connections[remote.GetID()]=append(r.connections[remote.GetID()],c)",
+     "return:nil"] := rfl
+
+theorem c17_shape_router_Router_handleConn_c17 :
+    Shapes.network_router_Router_handleConn_c17 =
+   ["defer{", "c.Close", "assign:err:=c.Close()", "if:(err!=nil)", "c.Rx", "c.Tx",
+     "assign:rx,tx:=c.Rx(),c.Tx()", "traffic.updateRx", "traffic.updateTx", "wg.Done",
+     "r.removeConnection", "verifC10Point", "}", "verifC10Point", "c.Remote",
+     "assign:address:=c.Remote()", "for:{", "c.Receive", "assign:packet,err:=c.Receive()",
+     "verifC10Point", "r.Lock", "assign:paused:=r.paused", "r.Unlock", "if:(paused!=nil)",
+     "recv:paused", "r.Lock", "assign:r.paused=nil", "r.Unlock", "return:", "if:r.Closed()",
+     "return:", "if:(err!=nil)", "if:xerrors.Is(err,ErrTimeout)",
+     "r.triggerConnectionErrorHandlers", "return:",
+     "if:(xerrors.Is(err,ErrClosed)||xerrors.Is(err,ErrEOF))",
+     "r.triggerConnectionErrorHandlers", "return:", "if:xerrors.Is(err,ErrUnknown)",
+     "r.triggerConnectionErrorHandlers", "return:", "continue",
+     "assign:packet.ServerIdentity=remote", "verifC10Point", "msgTraffic.updateRx", "r.Dispatch",
+     "assign:err:=r.Dispatch(packet)", "if:(err!=nil)", "}"] := rfl
+
+theorem c17_shape_Context_NewPeerSetID_c17 :
+    Shapes.context_Context_NewPeerSetID_c17 =
+   ["sha256.New", "assign:h:=sha256.New()", "h.Write", "h.Write",
+     "return:network.NewPeerSetID(h.Sum(nil))"] := rfl
 
 
 end C17
